@@ -49,6 +49,16 @@ CLAIMED = {
         "SMT-decided per path, counterexamples replayed natively.",
         "numbers: any non-NaN float64 at top level, integers in [-2,2] nested; sequences L<=2; sets/dicts/relations <=2 members; "
         "relations of 2..4 rows for rank/orderby; NaN excluded by assumption"),
+    "C07": (
+        "Bounded symbolic execution of the real parser, compiler and evaluator on enumerated program texts, each evaluated twice: "
+        "with every frozen set/map and every Go map enumerated in insertion order, and in order-free mode where a bounded number "
+        "of enumerations take another order (choice explored exhaustively within the bound). Both evaluations must fail alike "
+        "and give Equal values (bit-identical floats; identical fu.Repr/String output for concrete numbers). A counterexample is "
+        "confirmed natively by evaluating it in ten fresh processes (fresh hash seeds, fresh Go map orders) and comparing output.",
+        "30 programs over collections padded to 9..11 members (frozen keeps up to 8 in insertion order whatever the seed), x in "
+        "[-2,2] symbolic; float sum/mean with one arbitrary finite addend; at most 1 (quick) / 2 (thorough) deviating enumerations "
+        "per evaluation, a deviation being any permutation of <=3 members or one transposition of more; stdlib functions, --out "
+        "and import order are outside; superimposed sequence items are a listed known finding"),
     "C08": (
         "Bounded symbolic execution of the real wbnf parser, syntax.Compile and Expr.Eval on enumerated concrete program texts "
         "whose numbers come from a scope of symbolic values: let / arrow / application triples over 20 pattern shapes, 24 "
